@@ -351,9 +351,12 @@ def write_replay(prop, r, pm):
             'ensures': [[cl.label, cl.src] for cl in c.ensures_],
             'raises': [[rc.exc, rc.when, rc.exact, rc.label] for rc in c.raises_],
             'param_order': order}
+        ptys = []
+        for t in c.params.values():
+            ptys += t if isinstance(t, list) else [t]
         if hook is None and all(t.kind != 'ref' or t.args[0] in NATIVE_BUILDABLE
-                                for t in c.params.values()) and \
-                all(t.kind not in ('dict', 'rec', 'opaque') for t in c.params.values()):
+                                for t in ptys) and \
+                all(t.kind not in ('dict', 'rec', 'opaque', 'tup') for t in ptys):
             hook = 'generic'
     confirmed = False
     if hook is not None:
